@@ -132,3 +132,103 @@ EXCLUSIONS = ["safety of intermediate divisions is NOT claimed here (no_safety):
 NOT_COVERED = ["eig/iterative estimators (Davenport, QUEST, FLAE, OLEQ), UKF, FKF, Complementary: out of reach of the engine "
                "(np.linalg.eig on symbolic input / matrix sizes) -- FKF is known to return non-unit quaternions",
                "finiteness in the float sense (NaN/inf) beyond the exact real semantics"]
+
+
+def _hist_points():
+    return [dict(n=float(n), seed=float(s)) for n in (1, 2, 3, 7) for s in (1, 2)]
+
+
+OUT_OF_REACH = {
+    'Davenport': lambda ah, g, a, m: ah.filters.Davenport(acc=a, mag=m).Q,
+    'QUEST': lambda ah, g, a, m: ah.filters.QUEST(acc=a, mag=m).Q,
+    'FLAE.symbolic': lambda ah, g, a, m: ah.filters.FLAE(acc=a, mag=m, method='symbolic').Q,
+    'FLAE.eig': lambda ah, g, a, m: ah.filters.FLAE(acc=a, mag=m, method='eig').Q,
+    'FLAE.newton': lambda ah, g, a, m: ah.filters.FLAE(acc=a, mag=m, method='newton').Q,
+    'OLEQ': lambda ah, g, a, m: ah.filters.OLEQ(acc=a, mag=m).Q,
+    'Complementary': lambda ah, g, a, m: ah.filters.Complementary(gyr=g, acc=a, mag=m).Q,
+    'FAMC': lambda ah, g, a, m: ah.filters.FAMC(acc=a, mag=m).Q,
+    'FQA': lambda ah, g, a, m: ah.filters.FQA(acc=a, mag=m).Q,
+    'SAAM': lambda ah, g, a, m: ah.filters.SAAM(acc=a, mag=m).Q,
+}
+
+
+@contract('C03', 'one-per-sample.concrete', variants=[dict(f=k) for k in OUT_OF_REACH], concrete_points=_hist_points(),
+          functions=sorted(OUT_OF_REACH))
+def c_count(c):
+    """concrete canonical histories (not a proof) for estimators whose N-sample path is out of symbolic reach: histories of
+    1, 2, 3 and 7 samples give exactly one real unit quaternion per sample"""
+    import ahrs, warnings
+    warnings.filterwarnings('ignore')
+    n = int(c.real('n'))
+    rng = np.random.default_rng(int(c.real('seed')))
+    g = rng.normal(size=(n, 3)) * 0.2
+    a = np.tile([0.3, -0.2, 9.7], (n, 1)) + rng.normal(size=(n, 3)) * 0.3
+    m = np.tile([21.0, 1.5, 42.0], (n, 1)) + rng.normal(size=(n, 3)) * 0.5
+    if n == 1 and c.p['f'] != 'Complementary':
+        g, a, m = g[0], a[0], m[0]
+    if n == 1 and c.p['f'] == 'Complementary':
+        return
+    Q = np.asarray(OUT_OF_REACH[c.p['f']](ahrs, g, a, m))
+    c.goal('real', not np.iscomplexobj(Q) or bool(np.allclose(np.imag(Q), 0)))
+    Q = np.real(Q)
+    c.goal('shape', Q.shape == ((4,) if n == 1 else (n, 4)))
+    c.goal('unit', bool(np.allclose(np.linalg.norm(np.atleast_2d(Q), axis=1), 1.0, atol=1e-9)))
+
+
+def _canon_points():
+    pts = []
+    for k in range(13):
+        pts.append(dict(pose=float(k)))
+    return pts
+
+
+def _canon(k):
+    g = 9.81
+    if k < 8:
+        hr = np.radians(45.0 * k)
+        return [0, 0, g], [20 * np.cos(hr), -20 * np.sin(hr), 40]
+    if k == 8:
+        return [0, 0, -g], [20, 3, -40]
+    a = {9: [g, 0, 0], 10: [-g, 0, 0], 11: [0, g, 0], 12: [0, -g, 0]}[k]
+    return a, ([5, 20, 30] if k in (9, 10) else [20, 5, 30])
+
+
+CANON = {
+    'FAMC': lambda ah, a, m: ah.filters.FAMC().estimate(a, m),
+    'FQA': lambda ah, a, m: ah.filters.FQA().estimate(a.copy(), m.copy()),
+    'Tilt': lambda ah, a, m: ah.filters.Tilt().estimate(a, m),
+    'AQUA': lambda ah, a, m: ah.filters.AQUA().estimate(a, m),
+    'TRIAD': lambda ah, a, m: ah.filters.TRIAD().estimate(a, m, 'quaternion'),
+    'Davenport': lambda ah, a, m: np.real(ah.filters.Davenport().estimate(a, m)),
+    'QUEST': lambda ah, a, m: ah.filters.QUEST().estimate(a, m),
+    'FLAE.eig': lambda ah, a, m: np.real(ah.filters.FLAE(method='eig').estimate(a, m, method='eig')),
+    'FLAE.symbolic': lambda ah, a, m: np.real(ah.filters.FLAE().estimate(a, m)),
+    'OLEQ': lambda ah, a, m: ah.filters.OLEQ().estimate(a, m),
+    'ecompass': lambda ah, a, m: ah.common.orientation.ecompass(a, m, 'NED', 'quaternion'),
+    'Madgwick.MARG': lambda ah, a, m: ah.filters.Madgwick().updateMARG(np.array([1., 0, 0, 0]), np.array([0.01, 0.02, 0.03]), a, m),
+    'Mahony.MARG': lambda ah, a, m: ah.filters.Mahony().updateMARG(np.array([1., 0, 0, 0]), np.array([0.01, 0.02, 0.03]), a, m),
+}
+
+
+def _canon_body(c, table):
+    import ahrs, warnings
+    warnings.filterwarnings('ignore')
+    a, m = _canon(int(c.real('pose')))
+    q = np.asarray(table[c.p['f']](ahrs, np.array(a, float), np.array(m, float)), float)
+    c.goal('shape', q.shape == (4,))
+    c.goal('finite', bool(np.all(np.isfinite(q))))
+    c.goal('unit', bool(q.shape == (4,) and abs(np.linalg.norm(q) - 1.0) <= 1e-9))
+
+
+@contract('C03', 'canonical-poses.concrete', variants=[dict(f=k) for k in CANON], concrete_points=_canon_points(), functions=sorted(CANON))
+def c_canon(c):
+    """the property's exact canonical poses (level at 8 headings, upside-down, x/y axis up and down), executed concretely (not a
+    proof): one finite unit quaternion each"""
+    _canon_body(c, CANON)
+
+
+@contract('C03', 'canonical-poses.concrete.SAAM', variants=[dict(f='SAAM')], concrete_points=_canon_points(),
+          known_finding='KF-C03-SAAM-level', functions=['SAAM.estimate'])
+def c_canon_saam(c):
+    """SAAM at the canonical poses: NaN at every exactly level pose is the recorded known finding KF-C03-SAAM-level"""
+    _canon_body(c, {'SAAM': lambda ah, a, m: ah.filters.SAAM().estimate(a, m)})
